@@ -306,7 +306,8 @@ def coq_save(case, res):
 
 
 # ------------------------------------------------------------------ plot_2D_contour
-def run_plot(vp, vu, plt, case):
+def plot_objects(case):
+    """the objects the caller hands to plot_2D_contour: contour, sample, design_conditions"""
     cont = case.get("contour") or _Contour(case["coords"], case.get("object_cells", False))
     dc = case["dc"]
     arg = None if dc == "none" else (True if dc == "true" else np.array(case["dc_array"], dtype=float))
@@ -321,6 +322,46 @@ def run_plot(vp, vu, plt, case):
         cont.coordinates = cont.coordinates.astype(np.int64)
         if arg is not None and arg is not True:
             arg = arg.astype(np.int64)
+    return {"cont": cont, "sample": sample, "arg": arg}
+
+
+def _snapshot(objs):
+    import copy
+    return {"contour coordinates": copy.deepcopy(objs["cont"].coordinates),
+            "sample": copy.deepcopy(objs["sample"]),
+            "design_conditions": copy.deepcopy(objs["arg"])}
+
+
+def _changed(before, objs):
+    """names of the caller's objects that differ from the copies taken before the call"""
+    now = {"contour coordinates": objs["cont"].coordinates, "sample": objs["sample"], "design_conditions": objs["arg"]}
+    out = []
+    for k, b in before.items():
+        a = now[k]
+        try:
+            if b is None or isinstance(b, bool):
+                same = a is b
+            elif hasattr(b, "equals"):
+                same = bool(b.equals(a))
+            elif isinstance(b, list):
+                same = a == b
+            else:
+                same = np.asarray(a).dtype == np.asarray(b).dtype and np.asarray(a).shape == np.asarray(b).shape and all(
+                    (x is y) or np.array_equal(np.asarray(x, dtype=float), np.asarray(y, dtype=float), equal_nan=True)
+                    for x, y in zip(np.asarray(a, dtype=object).ravel(), np.asarray(b, dtype=object).ravel()))
+        except Exception:  # noqa
+            same = False
+        if not same:
+            out.append(k)
+    return out
+
+
+def run_plot(vp, vu, plt, case, objs=None):
+    """one call of plot_2D_contour; `objs` = the caller's objects when they are reused over several calls"""
+    objs = objs or plot_objects(case)
+    cont, sample, arg = objs["cont"], objs["sample"], objs["arg"]
+    dc = case["dc"]
+    before = _snapshot(objs)
     ax_in = None
     if case["own_ax"]:
         _, ax_in = plt.subplots()
@@ -339,7 +380,7 @@ def run_plot(vp, vu, plt, case):
         ax, ret_dc = ret
     else:
         ax, ret_dc = ret, None
-    res = {"n_lines": len(ax.lines),
+    res = {"inputs_modified": _changed(before, objs), "n_lines": len(ax.lines),
            "line": np.asarray(ax.lines[0].get_xydata(), dtype=float) if ax.lines else np.zeros((0, 2)),
            "colls": [np.asarray(np.ma.filled(c.get_offsets(), np.nan), dtype=float) for c in ax.collections],
            "ret_dc": None if ret_dc is None else np.asarray(ret_dc, dtype=float),
@@ -398,7 +439,26 @@ def oracle_plot(case, res):
         return dict(base, clause="returned-design-conditions"), "the design conditions returned are not the ones drawn"
     if not res["same_ax"]:
         return dict(base, clause="axes"), "did not draw into the axes passed in"
+    if res.get("inputs_modified"):
+        return dict(base, clause="inputs-modified", which=res["inputs_modified"][0], swap=case["swap"]), \
+            "plotting changed the caller's %s (swap_axis=%r)" % (" and ".join(res["inputs_modified"]), case["swap"])
     return None, None
+
+
+def plot_history(vp, vu, plt, case, swaps):
+    """plot the SAME contour / sample / design-condition objects several times (swap_axis as given); every plot
+    is judged against the values supplied at the start.  None or (index, signature, message)"""
+    objs = plot_objects(case)
+    for j, sw in enumerate(swaps):
+        c = dict(case, swap=sw)
+        r = run_plot(vp, vu, plt, c, objs)
+        s, msg = oracle_plot(c, r)
+        if s is not None:
+            alone, _ = oracle_plot(c, run_plot(vp, vu, plt, c))
+            if alone is not None and alone.get("clause") == s.get("clause"):
+                continue     # fails on fresh objects too: not a matter of history (the case stream reports it)
+            return j, dict(s, history=True), "plot %d of %d with the same objects (swap_axis history %r): %s" % (j + 1, len(swaps), swaps[:j + 1], msg)
+    return None
 
 
 def coq_plot(case, res):
@@ -738,7 +798,8 @@ def check_fitted(ctx, vp, plt, rng, name, model, data, sem, out):
             _rec["XYZ"] = (np.array(X), np.array(Y), np.array(Z))
             return _orig(X, Y, Z, *a, **kw)
         ax.contour = spy
-        sub = sample[:: max(1, len(sample) // 400)]
+        sub = np.ascontiguousarray(sample[:: max(1, len(sample) // 400)])
+        sub0 = sub.copy()
         ng = rng.choice([15, 24, 40])
         limits = None if rng.random() < 0.5 else [(0.0, rng.uniform(1.1, 1.5) * float(sample[:, 0].max())), (0.0, rng.uniform(1.1, 1.5) * float(sample[:, 1].max()))]
         levels = None if rng.random() < 0.4 else [1e-4, 1e-3, 1e-2]
@@ -758,6 +819,8 @@ def check_fitted(ctx, vp, plt, rng, name, model, data, sem, out):
         want = np.c_[sub[:, 1], sub[:, 0]] if swap else sub[:, :2]
         if not _same(offs, want):
             out.append(({"function": "plot_2D_isodensity", "clause": "scatter", "swap": swap}, "sample scatter is not the sample (swap_axis=%r)" % swap))
+        if not np.array_equal(sub, sub0):
+            out.append(({"function": "plot_2D_isodensity", "clause": "inputs-modified", "swap": swap}, "plot_2D_isodensity changed the caller's sample array (swap_axis=%r)" % swap))
         plt.close("all")
     # ---- QQ plots: ordered sample vs the model's own marginal icdf
     sub = sample[rng.randrange(0, 50):: max(1, len(sample) // 150)]
@@ -820,6 +883,9 @@ def replay(ctx, r):
     if fn == "save_contour_coordinates":
         res = run_save(vc, r, 0)
         s, msg = oracle_save(r, res)
+    elif fn == "plot_2D_contour" and "swap_history" in r:
+        f = plot_history(vp, vu, plt, r, r["swap_history"])
+        s, msg = (f[1], f[2]) if f else (None, None)
     elif fn == "plot_2D_contour":
         res = run_plot(vp, vu, plt, r)
         s, msg = oracle_plot(r, res)
@@ -938,6 +1004,41 @@ def run(ctx):
         dist[k] = dist.get(k, 0) + 1
         ctx.count(("plot", np.asarray(c["coords"]).tolist(), c["dc"], c["swap"], None if c["sample"] is None else np.asarray(c["sample"]).tolist()),
                   len(c["coords"]) >= 3 and (c["swap"] or c["dc"] != "none" or c["sample"] is not None))
+
+    # ---- histories of plots: the same contour / sample ndarray / design-condition array plotted several times
+    hist_plot = None
+    n_hp = ctx.n(30, 300)
+    for h in range(n_hp):
+        coords = rand_coords(rng, nprng, 2, n=rng.choice([3, 4, 7, 30]))
+        dc = rng.choice(["none", "array", "array", "true"])
+        case = {"function": "plot_2D_contour", "kind": "history", "coords": coords, "swap": True, "dc": dc,
+                "sample": nprng.uniform(0, 20, (rng.choice([1, 2, 10, 200]), 2)) if rng.random() < 0.85 else None,
+                "semantics": None, "own_ax": False, "sample_type": rng.choice(["ndarray", "ndarray", "ndarray", "list", "dataframe"])}
+        if dc == "array":
+            case["dc_array"] = nprng.uniform(0, 20, (rng.choice([1, 2, 3, 10]), 2))
+        swaps = [True, True] if h % 3 == 0 else [rng.random() < 0.6 for _ in range(rng.randrange(2, 5))]
+        ctx.count(("plot-history", np.asarray(coords).tolist(), dc, str(swaps)), any(swaps))
+        f = plot_history(vp, vu, plt, case, swaps)
+        if f is not None and hist_plot is None:
+            hist_plot = (case, swaps, f)
+    ctx.notes["plot_histories_on_the_same_objects"] = n_hp
+    if hist_plot is not None:
+        case, swaps, (j, sig, msg) = hist_plot
+        small, sw = _clean_case(case), swaps[:j + 1]
+        for i in range(j):                      # the shortest failing history: one earlier plot + the failing one
+            f2 = plot_history(vp, vu, plt, small, [swaps[i], swaps[j]])
+            if f2 is not None and f2[1].get("clause") == sig.get("clause"):
+                sw, (j, sig, msg) = [swaps[i], swaps[j]], f2
+                break
+        for key_, val in (("dc", "none"), ("coords", np.asarray(small["coords"])[:3].tolist()),
+                          ("sample", np.asarray(small["sample"])[:2].tolist() if small.get("sample") is not None else None)):
+            c2 = dict(small, **{key_: val})
+            f2 = plot_history(vp, vu, plt, c2, sw)
+            if f2 is not None and f2[1].get("clause") == sig.get("clause"):
+                small, (j, sig, msg) = c2, f2
+        ctx.violation(sig, "plot_2D_contour, the same contour (%d points), sample (%s, %s rows) and design_conditions (%s) plotted %d times: %s" % (
+            len(small["coords"]), small.get("sample_type"), "no" if small.get("sample") is None else len(small["sample"]), small["dc"], len(sw), msg),
+            dict(small, swap_history=sw))
 
     # ---- reader cases
     sizes = [1, 2, 3, 5, 10, 37, 100, 400, 1000] * ctx.n(6, 30) + [10000] * ctx.n(3, 12)
